@@ -133,6 +133,33 @@ outer:
 	}
 	res.Sum += <-got
 
+	// sync.Cond and sync.Map
+	var cmu sync.Mutex
+	cond := sync.NewCond(&cmu)
+	ready := false
+	var sm sync.Map
+	waiters := 3
+	var wg3 sync.WaitGroup
+	for i := 0; i < waiters; i++ {
+		wg3.Add(1)
+		go func(i int) {
+			defer wg3.Done()
+			cmu.Lock()
+			for !ready {
+				cond.Wait()
+			}
+			cmu.Unlock()
+			sm.Store(i, i*i)
+		}(i)
+	}
+	time.Sleep(time.Millisecond)
+	cmu.Lock()
+	ready = true
+	cond.Broadcast()
+	cmu.Unlock()
+	wg3.Wait()
+	sm.Range(func(k, v interface{}) bool { res.Sum += v.(int); return true }) // 0+1+4
+
 	// map range with deletion, rand
 	m := map[string]int{"a": 1, "b": 2, "c": 3}
 	for k, v := range m {
